@@ -32,10 +32,22 @@ EXTENDS Integers, Sequences, FiniteSets
 CONSTANTS EnvHonoured     \* TRUE: NewConfig as repaired (fix: commit); FALSE: as pinned (env ignored)
 
 Tri == {"unset", "true", "false"}
+(* The file and the environment carry TEXT.  Spellings the pinned code reads *)
+(* as "on" (Go's strconv.ParseBool true values, which is what viper's       *)
+(* GetBool accepts) and spellings an operator uses to say "off": the Go     *)
+(* false values and the YAML / shell habits off, no ... which GetBool,      *)
+(* failing to parse them, also turns into false.  Every "off" spelling must *)
+(* switch telemetry off.                                                    *)
+TrueSp == {"true", "TRUE", "1", "t"}
+FalseSp == {"false", "FALSE", "False", "0", "f", "off", "no", "Off", "NO"}
+Vals == {"unset"} \cup TrueSp \cup FalseSp
 Ivals == {"default", "custom", "zero", "negative"}
-Routes == [file : Tri, env : Tri, prog : Tri, hasFile : BOOLEAN,
-          ival : Ivals, ivalBy : {"file", "prog"}, idfile : {"ok", "unusable"}]
-B(t) == t = "true"
+(* entry: how the server is launched - "api": an embedding program calls    *)
+(* NewConfig / server.New itself; "cli": the command line entry point       *)
+(* (main.start through the cli.App: --config and the other flags).          *)
+Routes == [file : Vals, env : Vals, prog : Tri, hasFile : BOOLEAN,
+          ival : Ivals, ivalBy : {"file", "prog"}, idfile : {"ok", "unusable"}, entry : {"api", "cli"}]
+B(t) == t \in TrueSp
 
 \* documented fields of a report (CHANGELOG "Anonymous Telemetry"): instance id,
 \* version, OS information, CPU cores, total memory - pinned to the key paths of
@@ -73,6 +85,8 @@ Feasible(r) ==
   /\ (r.ival \in {"zero", "negative"}) => ~DocEnabled(r)
   /\ (r.ivalBy = "file") => (r.hasFile /\ r.ival # "default")
   /\ (r.ival = "default") => r.ivalBy = "prog"
+  \* the command line has no telemetry flag: nothing is assigned programmatically
+  /\ (r.entry = "cli") => (r.prog = "unset" /\ r.idfile = "ok" /\ (r.ival = "default" \/ r.ivalBy = "file"))
 
 -----------------------------------------------------------------------------
 VARIABLES route,      \* the configuration routes of this run
@@ -85,14 +99,15 @@ VARIABLES route,      \* the configuration routes of this run
           keys,       \* key paths of the body of the last request
           hdrs,       \* header names of the last request
           leaks,      \* classes of server strings found in any request (body, headers, URL)
-          idsOK       \* every request so far carried an instance_id of random-UUID (v4) shape
+          idsOK,      \* every request so far carried an instance_id of random-UUID (v4) shape
+          aged        \* the collector has been up for a long time (more than a day)
 
-vars == <<route, phase, enabled, collector, running, userData, sent, keys, hdrs, leaks, idsOK>>
+vars == <<route, phase, enabled, collector, running, userData, sent, keys, hdrs, leaks, idsOK, aged>>
 
 Init ==
   /\ route \in {r \in Routes : Feasible(r)}
   /\ phase = "init" /\ enabled = TRUE /\ collector = FALSE /\ running = FALSE
-  /\ userData = FALSE /\ sent = 0 /\ keys = {} /\ hdrs = {} /\ leaks = {} /\ idsOK = TRUE
+  /\ userData = FALSE /\ sent = 0 /\ keys = {} /\ hdrs = {} /\ leaks = {} /\ idsOK = TRUE /\ aged = FALSE
 
 Request == /\ sent' = sent + 1 /\ keys' = PayloadKeys /\ hdrs' = SentHeaders /\ leaks' = leaks /\ idsOK' = idsOK
 Silent  == UNCHANGED <<sent, keys, hdrs, leaks, idsOK>>
@@ -102,7 +117,7 @@ DoLoadConfig ==
   /\ phase = "init"
   /\ phase' = "loaded"
   /\ enabled' = IF route.prog # "unset" THEN B(route.prog) ELSE CodeConfig(route)
-  /\ Silent /\ UNCHANGED <<route, collector, running, userData>>
+  /\ Silent /\ UNCHANGED <<route, collector, running, userData, aged>>
 
 \* Server.Start: the collector is created only when enabled (the interval plays no part) and when
 \* telemetry.New could load or create the instance id; it is started, and its goroutine sends the
@@ -112,32 +127,41 @@ DoStart ==
   /\ phase' = "started"
   /\ collector' = (enabled /\ route.idfile = "ok") /\ running' = collector'
   /\ IF collector' THEN Request ELSE Silent
-  /\ UNCHANGED <<route, enabled, userData>>
+  /\ UNCHANGED <<route, enabled, userData, aged>>
 
 \* streams are created, messages published, credentials configured
 DoUserData ==
   /\ phase = "started"
   /\ userData' = TRUE
-  /\ Silent /\ UNCHANGED <<route, phase, enabled, collector, running>>
+  /\ Silent /\ UNCHANGED <<route, phase, enabled, collector, running, aged>>
+
+\* a long time passes (the server has been up for more than a day); what a report contains must not
+\* depend on it
+DoAge ==
+  /\ phase = "started" /\ ~aged
+  /\ aged' = TRUE
+  /\ Silent /\ UNCHANGED <<route, phase, enabled, collector, running, userData>>
 
 \* one reporting interval elapses
 DoTick ==
   /\ phase \in {"started", "stopped"}
   /\ IF running THEN Request ELSE Silent
-  /\ UNCHANGED <<route, phase, enabled, collector, running, userData>>
+  /\ UNCHANGED <<route, phase, enabled, collector, running, userData, aged>>
 
 \* Server.Stop: the collector's context is cancelled and its goroutine joined
 DoStop ==
   /\ phase = "started"
   /\ phase' = "stopped" /\ running' = FALSE
-  /\ Silent /\ UNCHANGED <<route, enabled, collector, userData>>
+  /\ Silent /\ UNCHANGED <<route, enabled, collector, userData, aged>>
 
-Next == DoLoadConfig \/ DoStart \/ DoUserData \/ DoTick \/ DoStop
+Next == DoLoadConfig \/ DoStart \/ DoUserData \/ DoAge \/ DoTick \/ DoStop
 Spec == Init /\ [][Next]_vars
 
 -----------------------------------------------------------------------------
 (* Property C19 *)
 C19_Silent    == MustBeSilent(route) => sent = 0
+\* "collector only created and started when enabled": a server that must be silent runs no collector
+C19_NoCollector == MustBeSilent(route) => (~collector /\ ~running)
 C19_Whitelist == keys \subseteq Whitelist /\ hdrs \subseteq HeaderWhitelist
 C19_NoLeak    == leaks = {}
 C19_InstanceId == idsOK      \* the instance id of a report is a random UUID, never a host / server string
@@ -151,5 +175,5 @@ ConfigAsDocumented == phase # "init" => enabled = DocEnabled(route)
 TypeOK ==
   /\ route \in Routes /\ phase \in {"init", "loaded", "started", "stopped"}
   /\ enabled \in BOOLEAN /\ collector \in BOOLEAN /\ running \in BOOLEAN /\ userData \in BOOLEAN
-  /\ sent \in Nat
+  /\ sent \in Nat /\ aged \in BOOLEAN
 =============================================================================
